@@ -400,3 +400,4 @@ macro_rules! cfb8_long_case {
     };
 }
 cfb8_long_case!(cfb8_enc_long_b2_l64_oneshot, 80, Encryptor, enc, true, U2, 2, 64, ONESHOT);
+cfb8_long_case!(t_cfb8_dec_long_b2_l64_multi, 80, Decryptor, dec, false, U2, 2, 64, MULTI);
